@@ -18,7 +18,7 @@ META = dict(
         text="Lean 4 theorems over all byte strings / argument lists (totality without panic, plain words, quoted "
              "round trip for every byte value, heredoc, continuation, stop-at-newline, named/positional mapping) about "
              "an executable model of ReadArguments/InjectArgs; the model is tied to the Go code on every run by an "
-             "exhaustive differential over all strings up to length 6 (quick) / 8 (thorough) of the 9 significant bytes "
+             "exhaustive differential over all strings up to length 7 (quick) / 8 (thorough) of the 9 significant bytes "
              "plus random long inputs, compared byte for byte including the unread remainder of the reader.",
         design_ref="DESIGN.md 3 C17"),
     level_note="Trusted: Lean kernel (axioms propext/Classical.choice/Quot.sound only), the hand-written model's "
@@ -81,7 +81,7 @@ def run(ctx):
     failed = ctx.lean_obligations()
     go = ctx.build_go("args")
     model = ctx.build_model("m_args")
-    n_enum = ctx.pick(6, 8)
+    n_enum = ctx.pick(7, 8)
     n_rand = ctx.pick(20000, 400000)
     ctx.rule = ("exhaustive: every byte string of length <= %d over {sp,tab,nl,\",\\,=,<,a,0xC3}; random: %d ops "
                 "(long inputs with arbitrary bytes, rendered argument lists, heredoc shapes, inject lists) from "
